@@ -5,7 +5,7 @@ From Coq Require Import List NArith ZArith Bool Lia.
 From Common Require Import Bytes Outcome.
 From Gen Require Import C09.
 From C09 Require Import Model Model4 ModelT Util Proofs_12 Proofs_4edges Proofs_4spec
-  Proofs_4emit Proofs_4dec Proofs_4rt Proofs_T.
+  Proofs_4emit Proofs_4dec Proofs_4rt Proofs_T Proofs_06.
 Import ListNotations.
 Local Open Scope N_scope.
 
@@ -169,7 +169,10 @@ Theorem format4_roundtrip :
   forall (segs : list seg4) (lang : N),
     lang < 65536 -> path m 0 segs -> emit4_size m segs <= 65535 ->
     exists b m',
-      M_emit4 m segs lang = Ok b /      M_decode4 (fun c => c) b = Ok m' /\ sorted_keys m' = true /      forall c, c <= 65535 -> lookup m' c = m c.
+      M_emit4 m segs lang = Ok b /\
+      M_decode4 (fun c => c) b = Ok m' /\
+      sorted_keys m' = true /\
+      (forall c, c <= 65535 -> lookup m' c = m c).
 Proof.
   intros m Hm segs lang Hl Hp Hs.
   assert (Hwf : wf_segs m 0 segs) by (apply (path_wf m Hm); [lia|assumption]).
@@ -184,6 +187,55 @@ Theorem decode4_total :
   forall (c2r : N -> N) (data : list N), M_decode4 c2r data <> Panic.
 Proof. exact decode4_no_panic. Qed.
 Print Assumptions decode4_total.
+
+(* ================================================================== *)
+(* Formats 0 and 6                                                    *)
+
+(* P2: the byte encoding table decodes to the mapping the specification
+   defines (glyphIdArray[c] for c < 256, glyph 0 otherwise); Encode/decode
+   round trip. *)
+Theorem format0_spec :
+  forall (data d : list N),
+    M_decode0 data = Ok d ->
+    N.of_nat (length data) = 262 /\
+    (forall c, c < 256 -> M_lookup0 d (Z.of_N c) = Ok (S_lookup0 data c)) /\
+    (forall c, 256 <= c -> M_lookup0 d (Z.of_N c) = Ok 0 /\ S_lookup0 data c = 0).
+Proof. intros data d H. destruct (decode0_spec data d H) as (H1 & _ & H3 & H4). auto. Qed.
+Print Assumptions format0_spec.
+
+Theorem format0_roundtrip :
+  forall (d : list N) (lang : N),
+    N.of_nat (length d) = 256 -> M_decode0 (M_encode0 d lang) = Ok d.
+Proof. exact decode0_encode0. Qed.
+Print Assumptions format0_roundtrip.
+
+(* P2: the trimmed table mapping decodes (code2rune = unicode) to the mapping
+   the specification defines: glyphIdArray[c - firstCode] inside
+   [firstCode, firstCode + entryCount), glyph 0 outside; an excess 0x0000 at the
+   end of the subtable is tolerated and changes nothing. *)
+Theorem format6_spec :
+  forall (data : list N) (m : amap),
+    M_decode6 (fun c => c) data = Ok m ->
+    sorted_keys m = true /\ forall c, lookup m c = S_lookup6 data c.
+Proof. intros data m H. exact (decode6_spec data m H). Qed.
+Print Assumptions format6_spec.
+
+(* P1 (C02 part): decodeFormat6 never panics; decodeFormat0 does not panic on
+   inputs of at least 6 bytes (cmap.Decode only hands out subtables of at least
+   10 bytes, see get_total; the function itself slices data[6:] unguarded). *)
+Theorem decode6_total :
+  forall (c2r : N -> N) (data : list N), M_decode6 c2r data <> Panic.
+Proof. exact decode6_no_panic. Qed.
+Print Assumptions decode6_total.
+
+Theorem decode0_total :
+  forall (data : list N), 6 <= N.of_nat (length data) -> M_decode0 data <> Panic.
+Proof.
+  intros data H. unfold M_decode0.
+  replace (N.of_nat (length data) <? 6) with false by lia.
+  destruct (negb _); discriminate.
+Qed.
+Print Assumptions decode0_total.
 
 (* ================================================================== *)
 (* The cmap table                                                     *)
